@@ -20,7 +20,7 @@
 (*     exponent regexp, longest suffix symbol, then - named deviation      *)
 (*     OneChar - only the ONE character in front of the symbol is examined.*)
 (***************************************************************************)
-EXTENDS Tables, Integers, Sequences, FiniteSets
+EXTENDS Tables, Integers, Sequences, FiniteSets, TLC
 
 CONSTANT OneChar        \* TRUE: pinned code `string[-len(base)-1]`; FALSE: repaired (whole remainder)
 
@@ -71,7 +71,7 @@ Admissible(p, u) == p = 0 \/ Prefixes[p].name \in Units[u].adm
 
 \* units by last character (evaluated once): the only candidates for "symbol is a suffix of text"
 LastChars == {Units[u].sym[Len(Units[u].sym)] : u \in 1..NU}
-ByLast == [c \in LastChars |-> {u \in 1..NU : Units[u].sym[Len(Units[u].sym)] = c}]
+ByLast == TLCEval([c \in LastChars |-> {u \in 1..NU : Units[u].sym[Len(Units[u].sym)] = c}])
 SuffixUnits(t) == IF t = <<>> \/ t[Len(t)] \notin LastChars THEN {}
                   ELSE {u \in ByLast[t[Len(t)]] : IsSuffix(Units[u].sym, t)}
 Longest(us) == CHOOSE u \in us : \A w \in us : Len(Units[w].sym) <= Len(Units[u].sym)
